@@ -283,6 +283,25 @@ def checklist_histories(log):
     return out
 
 
+def mutation_histories():
+    """every way a result can be obtained (first read, cached read, ignore_cache=True, return_in_order=True; with and
+    without numpy / alignment / a maximum), followed by the identical read and by the same read without ignore_cache;
+    used with a caller that mutates each returned object"""
+    out = []
+    bases = [call(types=['POSE', 'POSE_AUX']), call(types=['POSE']), call(types=['POSE', 'POSE_AUX'], num=True, keep=True),
+             call(types=['POSE', 'GNSS_INFO'], num=True), call(types=['POSE', 'POSE_AUX'], align=1, keep=True),
+             call(types=['POSE', 'POSE_AUX'], align=2, num=True, keep=True), call(types=['POSE', 'POSE_AUX', 'EVENT_NOTIFICATION'], max=-3),
+             call(types=['POSE'], idx=True, bytes=True), call(types=None)]
+    for b in bases:
+        ign = dict(b, ign=True)
+        order = dict(b, order=True)
+        out += [[b, dict(b)], [b, dict(b), dict(b)],                 # miss then hits
+                [ign, dict(b)], [ign, dict(ign)], [ign, dict(ign), dict(b)], [ign, dict(b), dict(b)],
+                [b, ign, dict(b)], [b, dict(b), ign, dict(b)],
+                [order, dict(b)], [order, dict(order), dict(b)], [b, order, dict(b)]]
+    return out
+
+
 def gen_aba(r, log):
     """random member of the A ; partial invalidation ; A family"""
     a = gen_call(r, log)
